@@ -1289,6 +1289,8 @@ _run_without_glue = run
 def run(res, tier, seed):
     _run_without_glue(res, tier, seed)
     gluecmp.check(res, GLUE_ROUTINES, tier, seed)
+    res.rule += (" | composition (C08_get_get, C08_get_commute_idempotent, C08_get_is_restrict): on every class case with a non-empty window, a second window between two sample instants "
+                 "taken from the result / taken first, the same window twice, and restrict(IntervalSet(start, end)) when start < end, all compared with the filter by the intersected range")
     res.rule += (" | glue: for each of %s the translated Glue.Lang term (coq/Gen/Glue.v) is evaluated by the extracted Glue/Interp.v and compared with the "
                  "real pynapple routine on canonical sets of a dyadic lattice (incl. negative times, empty, touching, duplicates, unsorted/improper "
                  "constructor input, thresholds equal to a length or gap); exceptions must match the model's error kind" % ", ".join(GLUE_ROUTINES))
